@@ -143,8 +143,8 @@ def decomposition_agrees_with_dense_solver(self, tol, maxiter, which, sigma, k, 
 def install():
     from molgri.molecules import transitions
     attach.ensure(transitions.DecompositionTool, "get_decomposition", decomposition_agrees_with_dense_solver)
-    from vlib.props import c01, c20, c02, c09, c16
-    c01.install(); c20.install(); c02.install(); c09.install(); c16.install()
+    from vlib.props import c01, c20, c02, c09, c16, c13
+    c01.install(); c20.install(); c02.install(); c09.install(); c16.install(); c13.install()
     from vlib import geom3, geom4
     geom3.install()
     geom4.install(max_n=13)
@@ -252,6 +252,26 @@ def pipeline(spec, rng, nprng, d, repo):
         Q, il = sq.cut_and_merge(Q, T=T, lower_limit=None, upper_limit=None)
         sparse.save_npz(rate_path, Q)
         REC.classes["stage sqra: library calls"] += 1
+    if route == "workflow" and not fallback and spec.get("shared_tool"):
+        # the same rule with cut/merge limits: the reduced matrix and the index list it SAVES must describe each other (the merge/delete
+        # steps themselves are judged by the C13 monitors installed alongside)
+        try:
+            rp2, ip2 = os.path.join(d, "rate_matrix_limits.npz"), os.path.join(d, "index_list_limits.npy")
+            body = rule_body(os.path.join(repo, "workflow", "run_sqra"), "run_sqra")
+            g = {"np": np, "sparse": sparse,
+                 "params": ns(T=float(T), energy_type="Potential", m_h2o=3e-26, tau=0.01, lower_lim=rng.choice(["0.5", "2.0", "None"]),
+                              upper_lim=rng.choice(["3.0", "8.0"])),
+                 "input": ns(energy=epath, distances_array=paths["distances_array"], borders_array=paths["borders_array"], volumes=paths["volumes"]),
+                 "output": ns(rate_matrix=rp2, index_list=ip2)}
+            exec(compile(body, "workflow/run_sqra:run_sqra(limits)", "exec"), g)
+            Q2 = sparse.load_npz(rp2)
+            il2 = np.load(ip2, allow_pickle=True)
+            groups = [list(x) for x in il2.tolist()] if il2.ndim else None
+            ok = groups is not None and len(groups) == Q2.shape[0] and sorted(c for gp in groups for c in gp) == sorted(set(c for gp in groups for c in gp)) \
+                and all(0 <= c < n for gp in groups for c in gp)
+            REC.check("C14.saved_index_list_describes_saved_matrix", ok, {"rows": Q2.shape[0], "groups": None if groups is None else len(groups), "spec": spec})
+        except Exception as e:
+            REC.crashed("C14.call_raised", e)
     # ---- pipeline postconditions on what was LOADED, in grid order ----------------------------------------
     V = np.load(paths["volumes"])
     A = sparse.load_npz(paths["adjacency_array"])
